@@ -426,20 +426,22 @@ class DiscriminatedUnionUnpackerBuilder(AbstractUnpackerBuilder):
             with lines.indent("except (KeyError, AttributeError):"):
                 lines.append(f"variants_map = {variants_map}")
                 with lines.indent(f"for variant in {variants}:"):
+                    # the tag is registered after the unpacker of the variant
+                    # is built: another thread that finds the tag must find
+                    # the variant's own method too, not an inherited one
                     if discriminator.variant_tagger_fn is not None:
-                        self._add_register_variant_tags(
-                            lines, variant_tagger_expr
-                        )
+                        lines.append(f"variant_tags = {variant_tagger_expr}")
                     else:
                         with lines.indent("try:"):
-                            self._add_register_variant_tags(
-                                lines, variant_tagger_expr
+                            lines.append(
+                                f"variant_tags = {variant_tagger_expr}"
                             )
                         with lines.indent("except KeyError:"):
                             lines.append("continue")
                     self._add_build_variant_unpacker(
                         spec, lines, variant_method_name, variant_method_call
                     )
+                    self._add_register_variant_tags(lines, "variant_tags")
                 with lines.indent("try:"):
                     if spec.builder.is_nailed:
                         lines.append(
@@ -559,7 +561,8 @@ class DiscriminatedUnionUnpackerBuilder(AbstractUnpackerBuilder):
         self, lines: CodeLines, variant_tagger_expr: str
     ) -> None:
         if self.discriminator.variant_tagger_fn:
-            lines.append(f"variant_tags = {variant_tagger_expr}")
+            if variant_tagger_expr != "variant_tags":
+                lines.append(f"variant_tags = {variant_tagger_expr}")
             with lines.indent("if type(variant_tags) is list:"):
                 with lines.indent("for varint_tag in variant_tags:"):
                     lines.append("variants_map[varint_tag] = variant")
